@@ -5,6 +5,7 @@ go 1.23
 toolchain go1.23.5
 
 require (
+	github.com/robfig/gettext v0.0.0-20200526193151-a093425df149
 	github.com/robfig/soy v0.0.0
 	pgregory.net/rapid v1.3.0
 )
@@ -12,6 +13,7 @@ require (
 require (
 	github.com/fsnotify/fsnotify v1.4.9 // indirect
 	golang.org/x/sys v0.0.0-20220722155257-8c9f86f7a55f // indirect
+	golang.org/x/text v0.3.8 // indirect
 )
 
 replace github.com/robfig/soy => /repo
